@@ -77,7 +77,10 @@ def binary_search_lightness(
 
             # Track best valid candidate
             if contrast >= target_contrast:
-                if delta_e < best_delta_e:
+                # A candidate that meets the target always beats a best-so-far that does
+                # not (whose smaller DeltaE would otherwise block it); among candidates
+                # that meet it, keep the closest.
+                if best_contrast < target_contrast or delta_e < best_delta_e:
                     best_rgb = candidate_rgb
                     best_delta_e = delta_e
                     best_contrast = contrast
